@@ -304,6 +304,23 @@ func (s *rstate) eval(n *ref.N) (rval, error) {
 		}
 		s.log = append(s.log, args[0].String()+";"+args[1].String())
 		return args[1], nil
+	case "sel":
+		// member access: the operand is evaluated (once), with whatever it binds; only null operands are
+		// modelled further (null for `.`, an error for `!.`), the member itself is not
+		v, err := s.eval(n.Kids[0])
+		if err != nil {
+			return rval{}, err
+		}
+		switch v.k {
+		case "null":
+			if n.Assert {
+				return rval{}, errRef
+			}
+			return rval{k: "null"}, nil
+		case "obj", "unk":
+			return rval{k: "unk"}, nil
+		}
+		return rval{}, fmt.Errorf("taint: member of a non-map")
 	case "cond":
 		c, err := s.eval(n.Kids[0])
 		if err != nil {
@@ -671,6 +688,7 @@ var c07Pool = []string{"$a", "$a = 1", "$a = $b", "$b = [$a, x]", "$a = 2, $b = 
 	"nofn(1)", "x(2)", "rec(1)", "[1, nofn(2)]", "x = 1",
 	"$a = [], $a", "$b = [], [$b, $a]", "rec($a = [], $a)", "$a = [[]], $a",
 	"$a = x ? 1 : 2, $a", "$a = $b = x ? 3 : 4, [$a, $b]", "$a = 0 ? 1 : 2", "$b = $a ? $a : 7, [$a, $b]", "x ? $a = 5 : 0, [$a, $b]", "$a ? 0 : ($b = 8), $b",
+	"$a = 1, ($a = $a + 1, m)!.n, $a", "$b = 1, [($b = $b + 1, m)!.n!.deep, $b]", "($a = 1, m).n, $a", "rec($a = 2, m)!.n, $a", "[rec(1, m)!.n, rec(2, 3)]", "$b = 2, ($b = $b + $b, m).n.deep, $b", "($a = 1, $b)!.n, $a",
 	c07Wide1, c07Wide2}
 
 // wide array literals: the first element binds a local that elements in every later quarter read
